@@ -275,7 +275,17 @@ func hasBlocked(obs []lifeObs) bool {
 // retries counts the repetitions for the evidence.
 func runLifeChecked(ops []lifeOp, tm lifeTiming, w *stallWatch, retries *atomic.Int32) ([]lifeObs, error) {
 	var last []lifeObs
+	base := tm
 	for attempt := 0; attempt < 5; attempt++ {
+		// a "blocked" verdict that a run with twice the bound does not reproduce may be an operation that is only
+		// slow (released by a time-out of the code under test that is longer than the bound): the bound doubles
+		// with every attempt, so that such an operation ends up observed as what it is
+		tm := base
+		if attempt > 0 && attempt < 4 {
+			tm.block = base.block << uint(attempt)
+		} else if attempt == 4 {
+			tm.block = base.block << 3
+		}
 		t0 := time.Now()
 		obs, err := runLife(ops, tm)
 		if err != nil {
